@@ -11,7 +11,7 @@
 From Coq Require Import List NArith.
 From Minimq Require Import Bytes Varint Utf8 Props Ser De Reader Arena Core Machine.
 From Minimq Require Import Status Progress WireInv Wire Measure Wire Terminate Run.
-From Minimq Require Import Varint ArenaOps ConnectOk ReaderInv Framing FillWhole PollReads Liveness.
+From Minimq Require Import Varint De ArenaOps ConnectOk ReaderInv Framing FillWhole PollReads Liveness Healthy.
 Import ListNotations.
 Open Scope N_scope.
 
@@ -90,6 +90,40 @@ Theorem C16_terminate_example :
   snd (op_drive FUEL ex_resumed) = ODone None /\ work (s_ob (w_sess (fst (op_drive FUEL ex_resumed)))) = 0.
 Proof. exact terminate_example. Qed.
 
+(* ---------------- the outbound half of quiescence ---------------- *)
+(* Hd: a behaving transport (script []), a live handle, no broker size limit, no PINGREQ due, no half-written entry (as
+   after every (re)connect: arm_replay puts every entry back at byte 0).  On such a connection one engine step takes the
+   entry it selected all the way: written whole, flushed, marked sent - never an error, a dropped future or a lost entry *)
+Theorem C16_healthy_step : forall st w, Hd w -> next_step (s_ob (w_sess w)) = Some st ->
+  exists w', perform_outbound_step st (w_now w) w = (w', ODone true) /\ Hd w' /\
+    s_reader (w_sess w') = s_reader (w_sess w) /\ w_now w' = w_now w.
+Proof. exact healthy_perform. Qed.
+
+(* and drive() sends EVERYTHING that is queued - owed acknowledgements, pending PUBRELs, retained packets to (re)send -
+   and returns with nothing left to write: every entry is marked sent, the control queue is empty *)
+Theorem C16_drive_sends_all : forall fuel w, Hd w -> NA w -> M (w_sess w) < N.of_nat fuel ->
+  exists w', op_drive fuel w = (w', ODone None) /\ next_step (s_ob (w_sess w')) = None /\ Hd w' /\ NA w'.
+Proof. exact drive_sends_all. Qed.
+
+Theorem C16_poll_sends_all : forall fuel w st, Hd w -> NA w -> next_step (s_ob (w_sess w)) = Some st -> M (w_sess w) < N.of_nat (S fuel) ->
+  exists w', op_poll (S fuel) w = (w', ODone None) /\ next_step (s_ob (w_sess w')) = None /\ Hd w' /\ NA w'.
+Proof. exact poll_sends_all. Qed.
+
+Theorem C16_drained_all_sent : forall o, Fr o -> next_step o = None ->
+  Forall (fun e => ce_st e = SSent) (ob_ctl o) /\ Forall (fun e => le_st e = SSent) (ob_rel o) /\ Forall (fun e => re_st e = SSent) (ob_ret o).
+Proof. exact drained_all_sent. Qed.
+
+(* a resumed connection with a retained publish at byte 0: the premises hold, drive() replays it *)
+Theorem C16_healthy_example :
+  w_script ex_replay = [] /\ w_live ex_replay = true /\ rt_mps (s_rt (w_sess ex_replay)) = None /\
+  rt_next_ping (s_rt (w_sess ex_replay)) = None /\ rt_ka_ms (s_rt (w_sess ex_replay)) = 0 /\
+  rt_ping_timeout (s_rt (w_sess ex_replay)) = None /\
+  map re_st (ob_ret (s_ob (w_sess ex_replay))) = [SWrite 0] /\ ob_ctl (s_ob (w_sess ex_replay)) = [] /\ ob_rel (s_ob (w_sess ex_replay)) = [] /\
+  packet_available (s_reader (w_sess ex_replay)) = false /\ M (w_sess ex_replay) < N.of_nat FUEL /\
+  snd (op_drive FUEL ex_replay) = ODone None /\
+  map re_st (ob_ret (s_ob (w_sess (fst (op_drive FUEL ex_replay))))) = [SSent].
+Proof. exact healthy_example. Qed.
+
 (* ---------------- towards the broker: liveness of reading, and one exchange end to end ---------------- *)
 (* the packet reader on a behaving transport: when the bytes of a whole canonically framed packet that fits the receive
    buffer have arrived, it assembles exactly that packet and stops with the packet available (any window sequence) *)
@@ -135,6 +169,24 @@ Theorem C16_poll_completes_puback : forall w pid t,
     next_step (s_ob (w_sess w')) = None /\ packet_available (rd w') = false.
 Proof. exact poll_completes_puback. Qed.
 
+(* the general form: the arrived packet is decoded and handed to the session; if it is a message for the application
+   poll() returns it, otherwise (and if nothing became writable) poll() reports progress - the session state is what
+   handle_packet makes of it *)
+Theorem C16_poll_handles_arrived : forall w h rl body t p s4 d,
+  varint_write (lenN body) = Some rl ->
+  let pkt := h :: rl ++ body in
+  lenN pkt <= rcap (rd w) -> lenN pkt <= 29000 ->
+  w_live w = true -> rdata (rd w) = [] -> rplen (rd w) = None ->
+  next_step (s_ob (w_sess w)) = None ->
+  (forall dd, rt_next_ping (s_rt (w_sess w)) = Some dd -> w_now w < dd) -> rt_ping_timeout (s_rt (w_sess w)) = None ->
+  w_script w = [] -> w_inq w = [(t, pkt)] -> t <= w_now w ->
+  from_buffer pkt = Some p ->
+  handle_packet (set_reader (w_sess w) (reader_reset (rd w))) p = (s4, HOk d) ->
+  (d = false -> next_step (s_ob s4) = None) ->
+  exists w', op_poll FUEL w = (w', ODone (if d then Some p else None)) /\
+    w_sess w' = s4 /\ w_live w' = true /\ w_inq w' = [] /\ w_now w' = w_now w.
+Proof. exact poll_handles_arrived. Qed.
+
 Theorem C16_puback_example :
   w_live ex_inflight = true /\ rdata (rd ex_inflight) = [] /\ rplen (rd ex_inflight) = None /\
   next_step (s_ob (w_sess ex_inflight)) = None /\
@@ -165,3 +217,9 @@ Print Assumptions C16_reader_completes_arrived_packet.
 Print Assumptions C16_poll_reads_arrived_packet.
 Print Assumptions C16_poll_completes_puback.
 Print Assumptions C16_puback_example.
+Print Assumptions C16_poll_handles_arrived.
+Print Assumptions C16_healthy_step.
+Print Assumptions C16_drive_sends_all.
+Print Assumptions C16_drained_all_sent.
+Print Assumptions C16_healthy_example.
+Print Assumptions C16_poll_sends_all.
